@@ -186,6 +186,75 @@ def router_data(eng, name, st):
     return RefV(rid, 'rec'), st
 
 
+RES_OK = z3.Bool('_g_resolves')
+RES_C, RES_I, RES_A = z3.Int('_g_res_class'), z3.Int('_g_res_instance'), z3.Int('_g_res_attribute')
+LOOKUP_ = z3.Function('lookup_object', z3.IntSort(), z3.IntSort(), z3.IntSort(), z3.IntSort())       # the object registered at (class, instance[, attribute]); 0 stands for None
+
+
+def resolve_model(eng, recv, args, kw, st, n):
+    """ASSUMED model of device.resolve(path): the (class, instance) the path denotes, or an exception for a path that denotes nothing"""
+    from pyvc.vals import ExcV
+    for s, ok in eng.fork(st, RES_OK):
+        if ok:
+            yield s, TupV([IntV(RES_C), IntV(RES_I)])
+        else:
+            yield s, ExcV('AssertionError', 'unresolvable path', getattr(n, 'lineno', None))
+
+
+def lookup_model(eng, recv, args, kw, st, n):
+    """ASSUMED model of device.lookup(class, instance): the registered object (an id), None when there is none"""
+    from pyvc.vals import NONE
+    from pyvc.pure import to_int
+    if len(args) != 2:
+        raise Unsupported('lookup with %d arguments' % len(args))
+    obj = LOOKUP_(to_int(args[0]), to_int(args[1]), z3.IntVal(0))
+    for s, found in eng.fork(st, obj != 0):
+        yield s, (IntV(obj) if found else NONE)
+
+
+def replay_route(model, obligation):
+    """requests addressed to this Logix instance, to another instance of its class, to its class level and to other classes, through the real route()"""
+    import cpppo
+    from cpppo.server.enip import device
+    from . import sim
+    num = lambda c, i, a: {'segment': [cpppo.dotdict({'class': c}), cpppo.dotdict({'instance': i}), cpppo.dotdict({'attribute': a})]}
+    lx = sim.fresh({'A': ('INT', 3), 'T2': ('INT', 2, num(2, 2, 1))})
+    for c, i, a in ((2, 1, 1), (2, 2, 1), (2, 0, 2), (1, 1, 1), (2, 1, 99)):
+        d = cpppo.dotdict(path=num(c, i, a))
+        got = lx.route(d)
+        mine = (c, i) == (lx.class_id, lx.instance_id)
+        want = None if mine else device.lookup(c, i)
+        if (got is None) != (want is None) or (got is not None and got is not want):
+            return dict(confirmed=True, function='cpppo.server.enip.device.Message_Router.route', input='path @%d/%d/%d at the router %d/%d' % (c, i, a, lx.class_id, lx.instance_id),
+                        observed='route() returns %r' % (got,), required='%r (None only for a request addressed to this very object)' % (want,))
+    return dict(confirmed=False)
+
+
+def route_spec():
+    def data(eng, name, st):
+        st = st.clone()
+        rid = eng.new_id()
+        st.heap[(rid, 'path')] = (z3.Bool('_g_has_path'), OpaqueV(z3.Const('_g_path', USort), 'path'))
+        st.heap[(rid, '__closed__')] = True
+        st.heap[(rid, '__keys__')] = ('path',)
+        for nm, v in (('_g_resolves', BoolV(RES_OK)), ('_g_res_class', IntV(RES_C)), ('_g_res_instance', IntV(RES_I)), ('_g_res_attribute', IntV(RES_A)),
+                      ('_g_has_path', BoolV(z3.Bool('_g_has_path')))):
+            eng.init_vals[nm] = v
+        return RefV(rid, 'rec'), st
+    funcs = dict(FUNCS, registered=lambda pe, c, i: IntV(LOOKUP_(c.t, i.t, z3.IntVal(0))))
+    MINE = '(_g_res_class == self.class_id and _g_res_instance == self.instance_id)'
+    return Spec('Message_Router.route', (F, 'Message_Router.route'), params={'data': data, 'fail': ('Const', 0)}, fields={'class_id': 'Int', 'instance_id': 'Int'},
+                cls_name='Message_Router',
+                ensures=[('no path: the request is for this object', 'implies(not _g_has_path, result is None)'),
+                         ('a path that denotes this very object (class AND instance): not routed', 'implies(_g_has_path and _g_resolves and %s, result is None)' % MINE),
+                         ('any other object: the one registered at the address the path denotes (None when nothing is registered there)',
+                          'implies(_g_has_path and _g_resolves and not %s, (result is None) == (registered(_g_res_class, _g_res_instance) == 0) and '
+                          'implies(result is not None, result == registered(_g_res_class, _g_res_instance)))' % MINE),
+                         ('a path that denotes nothing: False (with the default fail mode)', 'implies(_g_has_path and not _g_resolves, result == False)')],
+                raises={}, modifies=[], callees={'resolve': resolve_model, 'lookup': lookup_model}, hints=dict(funcs=funcs), replay=replay_route,
+                note='whole method with fail == ROUTE_FALSE (the default); device.resolve / device.lookup by assumed models (uninterpreted address and registry)')
+
+
 def router_request_spec():
     route = Spec('route', (F, 'Message_Router.route'), params={'data': 'Opaque', 'fail': 'Opaque'},
                  raises={'AssertionError': 'not _g_route_ok'}, returns='None', hints=dict(raises_exact=True),
@@ -212,11 +281,14 @@ def router_request_spec():
 
 def contracts(repo):
     from . import C05 as _C05
+    from . import C12 as _C12
     # a member that fails is answered inside the bundle with its own failure status: no exception of a member's store escapes Logix.request
-    return [produce_request_spec(), produce_reply_spec(), router_request_spec(), closure_spec(),
+    return [produce_request_spec(), produce_reply_spec(), router_request_spec(), route_spec(), closure_spec(),
             Custom('lemma', split_lemma, note='induction behind the prefix/suffix split used by the closure contract'),
             Custom('status_after_store', _C05.status_after_store, replay=_C05.replay_status_order, targets=[('server/enip/logix.py', 'Logix.request')],
-                   note='ordering condition on the AST of Logix.request (shared with C05): failure status before the range computation, no success status before the store')]
+                   note='ordering condition on the AST of Logix.request (shared with C05): failure status before the range computation, no success status before the store'),
+            Custom('collect_fresh', _C12.collect_fresh, replay=_C12.replay_collect, targets=[('server/enip/client.py', 'connector.collect')],
+                   note='dataflow condition on the AST of connector.collect (shared with C12): the status and value a client yields for a member of a bundle come from that member alone')]
 
 
 # ------------------------------------------------------------------------------------------------ closure (inverse of the table)
